@@ -444,11 +444,23 @@ void dfs(Node &n, int depth, std::vector<int> &path, int first_lo, int first_hi)
   }
 }
 
+bool REL4 = false; // four-variable phase: w ranges over the box and is tracked from the start
 void init_universe() {
   UNIVERSE.clear();
   Val v;
   v.v.fill(0);
   bool b = (DOM->caps & CAP_BOOL) != 0;
+  if (REL4) {
+    for (long x = -2; x <= 2; x++)
+      for (long y = -2; y <= 2; y++)
+        for (long z = -2; z <= 2; z++)
+          for (long w = -2; w <= 2; w++) {
+            v.v[VX] = x; v.v[VY] = y; v.v[VZ] = z; v.v[VW] = w;
+            UNIVERSE.push_back(v);
+          }
+    normalize_wset(UNIVERSE);
+    return;
+  }
   for (long x = -2; x <= 2; x++)
     for (long y = -2; y <= 2; y++)
       for (long z = -2; z <= 2; z++)
@@ -472,6 +484,7 @@ Node initial_node() {
   n.r[1].box = make_top();
   n.r[0].W = UNIVERSE;
   n.r[1].W = UNIVERSE;
+  n.w_used = REL4;
   return n;
 }
 
@@ -739,6 +752,9 @@ int main(int argc, char **argv) {
       FLAVOR = f[3];
       std::vector<int> path;
       for (auto &t : vp::split(f[4], '.')) path.push_back(atoi(t.c_str()));
+      // flavour "direct4" = the direct type in the four-variable phase
+      if (FLAVOR == "direct4") REL4 = true;
+      if (REL4) init_universe();
       if (FLAVOR == "linear") {
         linear_run(path);
       } else if (FLAVOR == "lockstep") {
@@ -814,18 +830,32 @@ int main(int argc, char **argv) {
       if (mode == "dfs") {
         // phase A: extended alphabet to depth_ext; phase B: core alphabet to depth_core
         // phase 2 (domains that model booleans only): the boolean-focus alphabet, one level deeper than the core phase
-        for (int phase = 0; phase < ((e.caps & CAP_BOOL) ? 3 : 2); phase++) {
+        // phase 3 (relational domains only): four-variable relational alphabet, w is an ordinary variable
+        const bool relational = e.name.find("dbm") != std::string::npos || e.name.find("oct") != std::string::npos ||
+                                e.name == "num_product" || e.name == "value_partitioning";
+        for (int phase = 0; phase < 4; phase++) {
+          if (phase == 2 && !(e.caps & CAP_BOOL)) continue;
+          if (phase == 3 && !relational) continue;
+          // quick tier: the two focus phases run on the domains that own the mechanism (flat boolean domains; zones and
+          // octagons with every closure setting) and, for the wrappers around them, with the first configuration only
+          const bool owner = e.name == "bool_int" || e.name == "bool_sparse_dbm" || e.name == "sparse_dbm" || e.name == "split_dbm" || e.name == "split_oct";
+          if (!th && phase >= 2 && !owner && &cfg != &cfgs[0]) continue;
           ALPHA = build_alphabet(e.caps, true);
           std::vector<int> first; // first-step op indices for this phase
           std::vector<int> allowed;
           for (int i = 0; i < (int)ALPHA.size(); i++)
-            if (phase == 0 || (phase == 1 && ALPHA[i].tier == 0) || (phase == 2 && ALPHA[i].focus)) allowed.push_back(i);
-          if (phase == 1)
-            for (auto &h : ALPHA) if (h.tier != 0) h.disabled = true;
-          if (phase == 2)
-            for (auto &h : ALPHA) if (!h.focus) h.disabled = true;
+            if ((phase == 0 && ALPHA[i].tier <= 1) || (phase == 1 && ALPHA[i].tier == 0) || (phase == 2 && ALPHA[i].focus) || (phase == 3 && ALPHA[i].rel4))
+              allowed.push_back(i);
+          for (auto &h : ALPHA) {
+            if (phase == 0 && h.tier > 1) h.disabled = true;
+            if (phase == 1 && h.tier != 0) h.disabled = true;
+            if (phase == 2 && !h.focus) h.disabled = true;
+            if (phase == 3 && !h.rel4) h.disabled = true;
+          }
+          REL4 = phase == 3;
+          init_universe();
           MAXD = phase == 0 ? depth_ext : (phase == 1 ? depth_core : depth_core + 1);
-          FLAVOR = "direct";
+          FLAVOR = phase == 3 ? "direct4" : "direct";
           for (int oi : allowed) {
             if (!vp::mine(unit++)) continue;
             if (vp::past_deadline()) { vp::incomplete(DOMNAME + " " + CFGNAME + " phase " + std::to_string(phase)); break; }
